@@ -1,10 +1,10 @@
 import ViaGen.SL
 /-
-  The tie between the model and the C++ of `response_line::parse_char`, checked by the kernel on every run:
-  `ViaGen/SL.lean` is the translation of the function as it is in /repo NOW (tools/cxx2lean.py); the theorem below
-  states that the hand-written model `SL.parseChar` — the function all property theorems are about — computes the
-  same new state and the same returned bool for EVERY configuration, state and byte.  A change to the C++ that alters
-  the function's behaviour makes this stop checking.
+  The tie between the model and the C++ of `response_line::parse_char` and `response_line::parse`, checked by the kernel on every run:
+  `ViaGen/SL.lean` is the translation of the two functions as they are in /repo NOW (tools/cxx2lean.py); the theorems
+  below state that the hand-written model functions `SL.parseChar` and `SL.parse` — the functions all property theorems
+  are about — compute the same new state, the same remaining input and the same returned bool for EVERY configuration,
+  state and input.  A change to the C++ that alters the behaviour of one of them makes this stop checking.
 -/
 namespace Via
 
@@ -13,5 +13,27 @@ theorem SL_parseChar_translated (cfg : Cfg) (s : SL) (c : Byte) : GenSL.parseCha
   cases st <;> first
     | rfl
     | (simp only [GenSL.parseChar, SL.parseChar]; repeat' split) <;> simp_all
+
+/-- the translated loop (with the code after the loop inlined at its exits) against the model's loop + epilogue -/
+theorem SL_parseLoop_translated (cfg : Cfg) (buf : Bytes) : ∀ s : SL,
+    GenSL.parseLoop cfg s buf =
+      (let r := SL.loop cfg s buf
+       if r.2.2 then (r.1, r.2.1, false)
+       else ({ r.1 with valid := r.1.st == .valid }, r.2.1, r.1.st == .valid)) := by
+  induction buf with
+  | nil => intro s; simp [GenSL.parseLoop, SL.loop]
+  | cons c cs ih =>
+    intro s
+    unfold GenSL.parseLoop SL.loop
+    by_cases hv : s.st = .valid
+    · simp [hv]
+    · simp only [bne_iff_ne, ne_eq, hv, not_false_eq_true, ↓reduceIte, beq_iff_eq, SL_parseChar_translated]
+      cases hr : (SL.parseChar cfg s c).2
+      · simp
+      · simp [ih]
+
+theorem SL_parse_translated (cfg : Cfg) (s : SL) (buf : Bytes) : GenSL.parse cfg s buf = SL.parse cfg s buf := by
+  unfold GenSL.parse SL.parse
+  rw [SL_parseLoop_translated]
 
 end Via
